@@ -840,6 +840,7 @@ func Run(r *common.Run) error {
 		c.schedules(true)
 		for i := 0; i < 5; i++ {
 			c.deadlineStorm()
+			c.closeBlocked()
 		}
 		for _, h := range [][]string{{"d"}, {"m", "df", "m", "dp"}, {"df", "c", "p"}, {"y", "dz", "y"}, {"m", "d"}, {"c", "dp"}} {
 			for i := 0; i < 10; i++ {
